@@ -460,8 +460,11 @@ def stage_interact_logging(ctx, stats):
                 os.write(m, b'ab\x1dnever sent')        # the escape in the middle of one read: what follows it is neither sent nor logged
             th = threading.Thread(target=user); th.start()
             try:
-                p.interact()
+                with common.guard(20):
+                    p.interact()
                 result['ok'] = True
+            except common.Stuck:
+                result['exc'] = 'interact() was still running 20 s after the escape character had been typed'
             except Exception as e:       # noqa
                 result['exc'] = '%s: %s' % (type(e).__name__, str(e)[:80])
             th.join()
@@ -550,7 +553,10 @@ def stage_handover(ctx, stats):
                     os.write(m, b'\x1d')
                 th = threading.Thread(target=user); th.start()
                 try:
-                    p.interact()
+                    with common.guard(20):
+                        p.interact()
+                except common.Stuck:
+                    msg = 'interact() was still running 20 s after the escape character had been typed'
                 except Exception as e:       # noqa
                     msg = 'interact() after expect() stopped inside a character raised %s: %s' % (type(e).__name__, str(e)[:100])
                 th.join()
